@@ -1,6 +1,10 @@
 """C05 — equality testing is total, reflexive, order-blind and discriminating.
 
-One stream, C05.eq: a pair (x, y) and an option set.  y is built from x by a known
+Two streams.  C05.leaf (harness/corr/c05leaf.py): pairs of numpy arrays through the leaf comparison
+Container._equals, reached by Data.equals / a property value / a parameter value, against the Lean model of
+that code (np.allclose and np.ma.allclose spelled out) and a declarative oracle.
+
+C05.eq: a pair (x, y) and an option set.  y is built from x by a known
 transformation (the same object, a copy, a rebuild under other construct keys / in
 another insertion order, other netCDF names, one single-component perturbation, an
 unrelated object, another type), so the expected verdict is known by construction
@@ -17,6 +21,7 @@ import numpy as np
 
 from .. import fw
 from ..fw import Case
+from . import c05leaf
 
 REQUIRED = [
     "C05_greedy_complete",
@@ -29,6 +34,7 @@ REQUIRED = [
     "C05_refl_others",
     "C05_symm_construct",
     "C05_names_blind",
+    "C05_names_blind_field",
     "C05_discriminating_construct",
     "C05_discriminating_array",
     "C05_ignore_exact",
@@ -43,30 +49,59 @@ REQUIRED = [
     "C05_discriminating_field_partial",
     "C05_field_data_axes_counterexample",
     "C05_old_code_counterexamples",
+    "C05_leaf_spec",
+    "C05_leaf_discriminating",
+    "C05_leaf_hidden_values_irrelevant",
+    "C05_leaf_refl_iff_no_nan",
+    "C05_leaf_nan_counterexample",
+    "C05_leaf_symm",
+    "C05_arr_is_leaf",
+    "C05_data_leaf_spec",
+    "C05_symm_others",
+    "C05_refl_components",
+    "C05_component_spec",
+    "C05_ignore_qualifiers_exact",
+    "C05_topology_cell_counterexample",
 ]
-BUDGET = {"quick": 1500, "thorough": 60000}
+BUDGET = {"quick": 4000, "thorough": 80000}
 QUICK_JOBS = 8
 RULE = (
-    "pairs (x, y): x from cfdm.example_field(0-7), their domains, randomly built fields/domains (1-3 axes of size 1-4, "
-    "dimension/auxiliary coordinates, cell measures, domain/field ancillaries, cell methods, coordinate references; equal axis sizes "
-    "and deliberately ambiguous axes included) and every metadata construct, Data, Bounds, CellMethod, CoordinateReference, "
-    "Datum, CoordinateConversion, DomainAxis inside them; y in {x, copy, complete subspace, rebuilt under renamed keys, rebuilt in "
-    "another insertion order, other netCDF names, one perturbation of: property, datum (beyond / within tolerance), mask element, "
-    "shape, data type, fill value, units, calendar, bounds (datum/removed/property), geometry type, interior ring, measure, axes "
-    "spanned, field data axes, cell method (method/qualifier/interval/axes/removed/added/order), coordinate reference "
-    "(parameter/datum/coordinate set/domain ancillary/removed), construct removed/added, domain axis added, compression; an "
-    "unrelated object; an object of another type; same content under another class} x options {ignore_data_type, "
-    "ignore_fill_value, ignore_properties None/str/tuple/list/empty, ignore_compression, ignore_type, rtol/atol None/0/dyadic, "
-    "verbose None/0/1/3/-1/'INFO'}, both directions. non-trivial = y is not x itself; distinct = distinct (x, transformation, options)"
+    "stream C05.eq - pairs (x, y): x from cfdm.example_field(0-11), their domains, DSG example fields compressed by convention, randomly "
+    "built fields/domains (1-3 axes of size 1-4, dimension/auxiliary coordinates, cell measures, domain/field ancillaries, cell methods, "
+    "coordinate references; equal axis sizes and deliberately ambiguous axes included), the GRID field (one construct of every type that "
+    "carries data - dimension / auxiliary / 2-d auxiliary / geometry coordinate with interior ring, domain ancillary, cell measure, field "
+    "ancillary, domain topology, cell connectivity - each with data of a drawn kind int / float / bool / str U / bytes S / reference time / "
+    "object, masked elements, bounds; about every third construct without standard_name / long_name / cf_role / axis so that identity() falls "
+    "back to ncvar%), and every metadata construct, Data, Bounds, InteriorRing, Count, Index, List, NodeCountProperties, "
+    "PartNodeCountProperties, CellMethod, CoordinateReference, Datum, CoordinateConversion, DomainAxis inside or beside them; y in {x, copy, "
+    "complete subspace, rebuilt under renamed keys, rebuilt in another insertion order, other netCDF names (all components, or the variable "
+    "name of ONE component set / changed / removed), one perturbation of: property, datum (beyond / within tolerance), mask element, the "
+    "value hidden under a masked element (verdict True), shape, data type, fill value, units, calendar (changed or removed), bounds "
+    "(datum/removed/property), geometry type, interior ring, measure / cell type / connectivity type, axes spanned, field data axes, cell "
+    "method (method/qualifier/interval value or count/axes/removed/added/order), coordinate reference (parameter/datum/coordinate "
+    "set/domain ancillary/removed), construct removed/added, domain axis added, compression; an unrelated object; an object of another type; "
+    "same content under another class}; in the grid family (perturbation family x data kind x level) is drawn uniformly with level in "
+    "{Data, construct, bounds of a construct, Bounds object, interior ring of a construct, InteriorRing object, field data, construct / "
+    "bounds / interior ring inside a Field, the same inside a Domain}; x options {ignore_data_type, ignore_fill_value, ignore_properties "
+    "None/str/tuple/list/empty, ignore_compression, ignore_type, ignore_qualifiers (CellMethod), rtol/atol None/0/dyadic, verbose "
+    "None/0/1/3/-1/'INFO'}, both directions. stream C05.leaf - pairs of numpy arrays (float64/float32/int64/int32/uint8/bool/U/S/object, "
+    "NaN and +-inf, integers beyond 2**53; shapes () to 3-d, empty; plain ndarray / MaskedArray with nomask / with a mask array) compared "
+    "through Data.equals, through a property value of a Bounds (array- or Data-valued) and through a parameter of a Datum; y = copy, other "
+    "masked-array form, value changed under the mask, one mask bit flipped, one value changed far / within tolerance / by one ulp, NaN on "
+    "one side / both sides, infinity of the other sign / against a finite value, reshaped, shortened, value-preserving change of data type, "
+    "other kind, unrelated array; fill value / units / calendar changed. non-trivial = y is not x itself; distinct = distinct (x, "
+    "transformation, options)"
 )
 ASSUMPTIONS = [
-    "array values are finite (no NaN/inf); numbers are carried exactly as dyadic rationals, strings only by identity",
+    "C05.eq: array values are finite (NaN/inf are exercised in C05.leaf); numbers are carried exactly as dyadic rationals, strings and objects only by identity",
     "tolerances come from a dyadic grid with rtol <= 1/2, so that float evaluation of |x-y| <= atol + rtol*|y| is exact on the generated values",
     "ignore_type=True between objects of different cfdm families (e.g. a coordinate against a Field) is outside the model: the oracle alone demands 'no exception'",
-    "cell methods carry 0, 1 or len(axes) intervals (CF); domain axes inside the modelled fields have a size",
+    "cell methods inside fields carry 0, 1 or len(axes) intervals (CF); domain axes inside the modelled fields have a size",
     "the `self is other` shortcut is modelled by a flag; object identity plays no other role",
     "a construct's Data take units, calendar and fill value from the construct's own properties (get_data), so these are perturbed on standalone Data only; a changed _FillValue/missing_value property also changes the derived data fill value, which only ignore_fill_value (not ignore_properties) is expected to hide",
-    "netCDF variable/dimension names and the external-variable status are not data-model components: changing them must not change the verdict",
+    "netCDF variable/dimension names and the external-variable status are not data-model components: changing them must not change the verdict; neither is the datum stored under a masked element",
+    "C05.leaf oracle: NaN in the same unmasked position of both arrays counts as the same datum (a construct equals its copy); numpy's convention (nan != nan) makes cfdm answer False there - open finding, kept a small fraction of the cases",
+    "object arrays hold strings and None only (a number inside an object array compares by Python == with numbers of other dtypes, which the model does not cover)",
 ]
 
 _cfdm = None
@@ -107,6 +142,7 @@ class Ab:
         self.names = {"_FillValue": 0, "missing_value": 1, "Conventions": 2}
         self.dtypes = {}
         self.svals = {}
+        self.ovals = {}
         self.fracs = []
 
     def name(self, s):
@@ -138,6 +174,15 @@ class Ab:
             self.svals[k] = len(self.svals)
         return -(10 ** 30) - self.svals[k]
 
+    def oval(self, v):
+        """An element of an object array.  `_equals` gives object arrays no exemption from the data type
+        test (unlike strings) and compares them exactly after np.allclose's TypeError: in the model they are
+        'numbers' so far apart (factor 4, tolerances have rtol <= 1/2) that close means identical."""
+        k = (type(v).__name__, v if isinstance(v, (str, bytes, type(None))) else repr(v))
+        if k not in self.ovals:
+            self.ovals[k] = len(self.ovals)
+        return ("n", Fraction(-(10 ** 30) * 4 ** (self.ovals[k] + 1)))
+
     def dtype(self, dt):
         s = str(dt)
         if s not in self.dtypes:
@@ -151,15 +196,19 @@ class Ab:
         kind = a.dtype.kind
         if kind not in "biufSUO":
             raise Unrepresentable(str(a.dtype))
-        isstr = kind in "SUO"
+        isstr = kind in "SU"
         mask = np.ma.getmaskarray(a).ravel()
         data = np.ma.getdata(a).ravel()
         vals = []
-        for m, v in zip(mask.tolist(), data.tolist()):
+        for m, v in zip(mask.tolist(), data.tolist() if kind != "O" else list(data)):
             if m:
                 vals.append("--")
             elif isstr:
                 vals.append(self.sval(v))
+            elif kind == "O":
+                if isinstance(v, (int, float, complex, np.number)) and not isinstance(v, bool):
+                    raise Unrepresentable("number inside an object array")
+                vals.append(self.oval(v))
             else:
                 vals.append(self.num(v))
         return (tuple(int(n) for n in a.shape), self.dtype(a.dtype), int(isstr), tuple(vals))
@@ -185,7 +234,7 @@ class Ab:
     def sub(self, b):
         if b is None:
             return None
-        return (self.props(b.properties()), self.data(b.get_data(None)))
+        return (self.props(b.properties()), self.data(b.get_data(None)) if hasattr(b, "get_data") else None)
 
     def construct(self, c):
         cls = ROLE[c.construct_type]
@@ -195,7 +244,15 @@ class Ab:
                 self.name(c.get_geometry(None)) if hasattr(c, "get_geometry") else None,
                 self.sub(c.get_bounds(None)) if hasattr(c, "get_bounds") else None,
                 self.sub(c.get_interior_ring(None)) if hasattr(c, "get_interior_ring") else None,
-                self.name(c.get_measure(None)) if hasattr(c, "get_measure") else None)
+                self.type_tag(c))
+
+    def type_tag(self, c):
+        """The class's own type tag: measure of a cell measure, cell of a domain topology, connectivity of a
+        cell connectivity."""
+        for acc in ("get_measure", "get_cell", "get_connectivity"):
+            if hasattr(c, acc):
+                return self.name(getattr(c, acc)(None))
+        return None
 
     def cell_method(self, m):
         q = m.qualifiers()
@@ -264,9 +321,14 @@ class Ab:
             return ("P", 1 if isinstance(o, C.Datum) else 2, self.params(o.parameters()))
         if getattr(o, "construct_type", None) in ROLE:
             return self.construct(o)
-        if isinstance(o, (C.Bounds, C.InteriorRing)):
-            return ("S", 7 if isinstance(o, C.Bounds) else 8, self.sub(o))
+        for code, cls in enumerate(MISC_CLASSES):
+            if type(o) is getattr(C, cls):
+                return ("S", 7 + code, self.sub(o))
         return ("O", self.name("type:" + type(o).__name__))
+
+
+# classes that are Properties(+Data) and nothing else: compared by PropertiesData.equals / Properties.equals
+MISC_CLASSES = ["Bounds", "InteriorRing", "Count", "Index", "List", "NodeCountProperties", "PartNodeCountProperties"]
 
 
 def render(t, k):
@@ -302,7 +364,7 @@ def scale_of(fracs):
 FAMILY_OPTS = {
     "pd": ("rtol", "atol", "verbose", "ignore_data_type", "ignore_fill_value", "ignore_properties", "ignore_compression", "ignore_type"),
     "data": ("rtol", "atol", "verbose", "ignore_data_type", "ignore_fill_value", "ignore_compression", "ignore_type"),
-    "cm": ("rtol", "atol", "verbose", "ignore_type"),
+    "cm": ("rtol", "atol", "verbose", "ignore_type", "ignore_qualifiers"),
     "ref": ("rtol", "atol", "verbose", "ignore_type"),
     "params": ("rtol", "atol", "verbose", "ignore_data_type", "ignore_fill_value", "ignore_type"),
     "axis": ("verbose", "ignore_type"),
@@ -331,10 +393,13 @@ VERBOSE = [None, None, None, 0, 1, 3, -1, "INFO", "DEBUG"]
 
 def gen_opts(rng, pname):
     """A random option set; `pname` is the property name the perturbation touches (if any)."""
-    o = dict(idt=False, ifv=False, ip=None, ic=True, it=False, rtol=None, atol=None, verbose=None)
+    o = dict(idt=False, ifv=False, ip=None, ic=True, it=False, rtol=None, atol=None, verbose=None, iq=None)
     r = rng.random()
     if r < 0.25:
         return o  # defaults
+    if rng.random() < 0.4:
+        # CellMethod.equals only
+        o["iq"] = rng.choice([["where"], ["interval"], ["where", "interval"], ["zzz"], [], ["over", "where"]])
     if rng.random() < 0.3:
         o["idt"] = True
     if rng.random() < 0.3:
@@ -395,6 +460,8 @@ def kwargs_for(x, o):
         kw["atol"] = o["atol"]
     if o["verbose"] is not None:
         kw["verbose"] = o["verbose"]
+    if o.get("iq") is not None and "ignore_qualifiers" in allowed:
+        kw["ignore_qualifiers"] = tuple(o["iq"]) if len(o["iq"]) % 2 else list(o["iq"])
     return kw
 
 
@@ -412,6 +479,9 @@ def effective(x, o):
         e["ic"] = True
     if "rtol" not in allowed:
         e["rtol"] = e["atol"] = None
+    if "ignore_qualifiers" not in allowed:
+        e["iq"] = None
+    e.setdefault("iq", None)
     return e
 
 
@@ -537,7 +607,8 @@ def random_field(seed, domain=False):
             r = C.CoordinateReference(
                 coordinates=rng.sample(coords, rng.randint(1, len(coords))),
                 coordinate_conversion=C.CoordinateConversion(
-                    parameters={"grid_mapping_name": rng.choice(["latitude_longitude", "rotated"]), "p": float(rng.randint(0, 3))},
+                    parameters=dict({"grid_mapping_name": rng.choice(["latitude_longitude", "rotated"]), "p": float(rng.randint(0, 3))},
+                                    **({"unset_term": None} if rng.random() < 0.25 else {})),
                     domain_ancillaries=({"a": ancs[0]} if ancs and rng.random() < 0.7 else ({"a": None} if rng.random() < 0.2 else {})),
                 ),
                 datum=C.Datum(parameters={"earth_radius": float(rng.choice([6371007, 6371000]))} if rng.random() < 0.6 else {}),
@@ -573,10 +644,189 @@ def bare_axes_field(seed):
     return f
 
 
+# -------------------------------------------------------------------------
+# the grid field: every construct type x every data kind, nameless constructs, masks everywhere
+# -------------------------------------------------------------------------
+DATA_KINDS = ["int", "float", "bool", "U", "S", "reftime", "O"]
+GRID_ROLES = ["dim", "aux", "aux2d", "geom", "domanc", "measure", "fanc", "topology", "connectivity"]
+_grid_cache = {}
+
+
+def kind_array(rng, dk, shape, masked=None):
+    """An array of data kind dk; with masked elements (when it has more than one element) unless masked=False."""
+    n = int(np.prod(shape)) if shape else 1
+    if dk == "int":
+        a = np.array([rng.randint(-40, 40) for _ in range(n)], dtype=rng.choice(["int32", "int64"]))
+    elif dk in ("float", "reftime"):
+        a = np.array([rng.randint(-40, 40) / rng.choice([1, 1, 2, 4]) for _ in range(n)], dtype="float64")
+        if dk == "float" and rng.random() < 0.25:
+            a = a.astype("float32")
+    elif dk == "bool":
+        a = np.array([rng.random() < 0.5 for _ in range(n)], dtype=bool)
+    elif dk == "U":
+        a = np.array([rng.choice(["a", "bb", "ccc", "d e", "xyz", "k"]) for _ in range(n)], dtype="U%d" % rng.choice([3, 3, 5]))
+    elif dk == "S":
+        a = np.array([rng.choice([b"a", b"bb", b"ccc", b"xyz", b"k"]) for _ in range(n)], dtype="S%d" % rng.choice([3, 3, 5]))
+    elif dk == "O":
+        a = np.empty(n, dtype=object)
+        for i in range(n):
+            a[i] = rng.choice([None, "a", "bb", "ccc", "xyz"])
+    else:
+        raise fw.HarnessError(dk)
+    a = a.reshape(shape)
+    if masked is None:
+        masked = rng.random() < 0.6
+    if masked and n > 1:
+        m = np.zeros(n, bool)
+        for i in rng.sample(range(n), rng.choice([1, 1, 2]) if n > 2 else 1):
+            m[i] = True
+        a = np.ma.array(a, mask=m.reshape(shape))
+    elif rng.random() < 0.15:
+        a = np.ma.array(a)
+    return a
+
+
+def grid_field(seed, role, dk, domain=False):
+    """A field holding one construct of every type that carries data.  The construct `role` (and its bounds
+    and interior ring, and the field itself for role 'field') holds data of kind dk; the others draw their
+    kinds at random.  About every third construct has no standard_name / long_name / cf_role / axis, so that
+    its identity() falls back to its netCDF variable name (when it has one).  Returns (field, keys)."""
+    C = cfdm()
+    rng = fw.rng_for(seed, "C05grid", role, dk)
+    n0 = rng.choice([3, 4])
+    n1 = rng.choice([2, 3])
+    f = C.Field(properties={"standard_name": "air_temperature", "comment": "grid%d" % rng.randrange(3)})
+    a0 = f.set_construct(C.DomainAxis(n0))
+    a1 = f.set_construct(C.DomainAxis(n1))
+    keys = {}
+    counter = itertools.count()
+
+    def kd(r):
+        return dk if r == role else rng.choice(DATA_KINDS)
+
+    def props(r, k):
+        q = {}
+        nameless = rng.random() < (0.5 if r == role else 0.3)
+        if not nameless:
+            q[rng.choice(["standard_name", "long_name", "long_name"])] = "name_%s_%d" % (r, next(counter))
+        if rng.random() < 0.3:
+            q["comment"] = "c%d" % rng.randrange(3)
+        if k == "reftime":
+            q["units"] = "days since 2000-01-01"
+            q["calendar"] = rng.choice(["noleap", "360_day"])
+        elif k in ("int", "float") and rng.random() < 0.5:
+            q["units"] = rng.choice(["m", "K", "1"])
+        return q
+
+    def finish(c, r):
+        if rng.random() < 0.75:
+            c.nc_set_variable("nc_%s" % r)
+        return c
+
+    def data(k, shape):
+        return C.Data(kind_array(rng, k, shape))
+
+    fk = dk if role == "field" else rng.choice(["float", "float", "int"])
+    fprops = {}
+    fd = C.Data(kind_array(rng, fk, [n0, n1]), units="K" if fk in ("float", "int") else None)
+    f.set_data(fd, axes=[a0, a1])
+    # dimension coordinate
+    k = kd("dim")
+    c = C.DimensionCoordinate(properties=props("dim", k), data=data(k, [n0]))
+    if rng.random() < 0.6 or role == "dim":
+        c.set_bounds(C.Bounds(data=data(k, [n0, 2])))
+    keys["dim"] = f.set_construct(finish(c, "dim"), axes=[a0])
+    # auxiliary coordinates
+    k = kd("aux")
+    c = C.AuxiliaryCoordinate(properties=props("aux", k), data=data(k, [n0]))
+    if rng.random() < 0.5 or role == "aux":
+        b = C.Bounds(data=data(k, [n0, 2]))
+        if rng.random() < 0.4:
+            b.set_property("long_name", "bounds of aux")
+        c.set_bounds(b)
+    keys["aux"] = f.set_construct(finish(c, "aux"), axes=[a0])
+    k = kd("aux2d")
+    c = C.AuxiliaryCoordinate(properties=props("aux2d", k), data=data(k, [n0, n1]))
+    keys["aux2d"] = f.set_construct(finish(c, "aux2d"), axes=[a0, a1])
+    # geometry coordinate with interior ring
+    k = kd("geom")
+    c = C.AuxiliaryCoordinate(properties=props("geom", k), data=data(k, [n0]))
+    c.set_bounds(C.Bounds(data=data(k, [n0, 2, 3])))
+    c.set_geometry(rng.choice(["polygon", "line"]))
+    c.set_interior_ring(C.InteriorRing(data=data(k if rng.random() < 0.5 else "int", [n0, 2])))
+    if rng.random() < 0.3:
+        c.get_interior_ring().set_property("long_name", "ring")
+    keys["geom"] = f.set_construct(finish(c, "geom"), axes=[a0])
+    # domain ancillary
+    k = kd("domanc")
+    c = C.DomainAncillary(properties=props("domanc", k), data=data(k, [n1]))
+    if rng.random() < 0.4 or role == "domanc":
+        c.set_bounds(C.Bounds(data=data(k, [n1, 2])))
+    keys["domanc"] = f.set_construct(finish(c, "domanc"), axes=[a1])
+    # cell measure
+    k = kd("measure")
+    c = C.CellMeasure(properties=props("measure", k), data=data(k, [n0, n1]))
+    if rng.random() < 0.6:
+        c.set_measure(rng.choice(["area", "volume"]))
+    keys["measure"] = f.set_construct(finish(c, "measure"), axes=[a0, a1])
+    # field ancillary
+    if not domain:
+        k = kd("fanc")
+        c = C.FieldAncillary(properties=props("fanc", k), data=data(k, [n0]))
+        keys["fanc"] = f.set_construct(finish(c, "fanc"), axes=[a0])
+    # UGRID constructs
+    k = kd("topology")
+    c = C.DomainTopology(properties=props("topology", k), data=data(k, [n0, 3]))
+    if rng.random() < 0.8:
+        c.set_cell(rng.choice(["face", "edge", "point"]))
+    keys["topology"] = f.set_construct(finish(c, "topology"), axes=[a0])
+    k = kd("connectivity")
+    c = C.CellConnectivity(properties=props("connectivity", k), data=data(k, [n0, 4]))
+    if rng.random() < 0.8:
+        c.set_connectivity(rng.choice(["edge", "node"]))
+    keys["connectivity"] = f.set_construct(finish(c, "connectivity"), axes=[a0])
+    # cell methods and a coordinate reference
+    if rng.random() < 0.5:
+        f.set_construct(C.CellMethod(axes=[rng.choice([a0, a1])], method=rng.choice(["mean", "sum"])))
+    if rng.random() < 0.5:
+        f.set_construct(C.CoordinateReference(
+            coordinates=[keys["dim"], keys["aux"]],
+            coordinate_conversion=C.CoordinateConversion(parameters={"grid_mapping_name": "latitude_longitude"},
+                                                         domain_ancillaries={"a": keys["domanc"]}),
+            datum=C.Datum(parameters={"earth_radius": 6371007.0})))
+    if domain:
+        return f.domain, keys
+    return f, keys
+
+
+def grid_keys(base):
+    t = tuple(base)
+    if t not in _grid_cache:
+        if len(_grid_cache) > 64:
+            _grid_cache.clear()
+        _grid_cache[t] = grid_field(base[1], base[2], base[3], domain=(base[0] == "griddom"))
+    return _grid_cache[t][1]
+
+
 def base_field(base):
     kind = base[0]
+    if kind in ("grid", "griddom"):
+        grid_keys(base)
+        return _grid_cache[tuple(base)][0].copy()
     if kind == "ex":
         return example(base[1])
+    if kind == "excomp":
+        # a DSG example field compressed by convention: its Data (and that of the ragged coordinates) hold
+        # compressed arrays, which equals(..., ignore_compression=False) compares as well
+        key = ("comp", base[1], base[2])
+        if key not in _ex_cache:
+            try:
+                _ex_cache[key] = example(base[1]).compress(base[2])
+            except Exception:
+                _ex_cache[key] = None
+        if _ex_cache[key] is None or not _ex_cache[key].data.get_compression_type():
+            raise Skip
+        return _ex_cache[key].copy()
     if kind == "exdom":
         return example(base[1]).domain
     if kind == "rand":
@@ -605,7 +855,28 @@ def select(f, sel):
         return f.constructs[sel[1]].datum
     if what == "conv":
         return f.constructs[sel[1]].coordinate_conversion
+    if what == "misc":
+        return misc_object(sel[1], sel[2])
     raise fw.HarnessError(f"unknown selector {sel}")
+
+
+def misc_object(cls, seed):
+    """A standalone Count / Index / List / NodeCountProperties / PartNodeCountProperties / Bounds / InteriorRing."""
+    C = cfdm()
+    rng = fw.rng_for(seed, "C05misc", cls)
+    props = {}
+    if rng.random() < 0.7:
+        props["long_name"] = rng.choice(["count of things", "index", "nodes per cell"])
+    if rng.random() < 0.3:
+        props["comment"] = "c%d" % rng.randrange(3)
+    o = getattr(C, cls)(properties=props)
+    if hasattr(o, "set_data"):
+        dk = rng.choice(DATA_KINDS if cls in ("Bounds", "InteriorRing") else ["int", "int", "float"])
+        shape = [rng.choice([2, 3, 4])] + ([2] if cls in ("Bounds", "InteriorRing") else [])
+        o.set_data(C.Data(kind_array(rng, dk, shape)))
+    if rng.random() < 0.5:
+        o.nc_set_variable("nc_" + cls.lower())
+    return o
 
 
 def selectors(f, rng):
@@ -614,7 +885,7 @@ def selectors(f, rng):
     out = [("self",)]
     if isinstance(f, C.Field):
         out.append(("data", None))
-    for k, c in f.constructs.todict().items():
+    for k, c in all_constructs(f):
         out.append(("con", k))
         if hasattr(c, "has_data") and c.has_data():
             out.append(("data", k))
@@ -637,8 +908,9 @@ def rebuild(f, rng, rename, reorder):
     is_field = isinstance(f, C.Field)
     g = (C.Field if is_field else C.Domain)(properties=f.properties())
     axes = list(f.domain_axes(todict=True).items())
-    cons = list(f.constructs.filter_by_data(todict=True).items())
     da = f.constructs.data_axes()
+    allc = f.constructs.filter_by_data(todict=True)
+    cons = [(k, allc[k]) for k in da if k in allc]  # insertion order (deterministic, unlike filter_by_data's)
     if reorder:
         rng.shuffle(axes)
         rng.shuffle(cons)
@@ -698,8 +970,29 @@ class Skip(Exception):
     """The transformation does not apply to this object."""
 
 
+def data_constructs(f):
+    """(key, construct) of the metadata constructs with data, sorted by key: filter_by_data() iterates over a
+    set of construct types, so its order changes with PYTHONHASHSEED and must not steer a random choice."""
+    return sorted(f.constructs.filter_by_data(todict=True).items())
+
+
+def all_constructs(f):
+    return sorted(f.constructs.todict().items())
+
+
 def has_ndata(o):
-    return hasattr(o, "has_data") and o.has_data() and o.data.size > 0 and o.data.dtype.kind in "iuf"
+    """o carries a non-empty array of a kind the perturbations know (numbers, booleans, strings, objects)."""
+    return hasattr(o, "has_data") and o.has_data() and o.data.size > 0 and o.data.dtype.kind in "biufSUO"
+
+
+def data_kind(d):
+    """The data kind of a Data, for the input distribution."""
+    k = d.dtype.kind
+    if k in "iu":
+        return "int"
+    if k == "f":
+        return "reftime" if " since " in str(d.get_units("")) else "float"
+    return {"b": "bool", "U": "U", "S": "S", "O": "O"}.get(k, "other")
 
 
 def data_holder_paths(x):
@@ -712,13 +1005,37 @@ def data_holder_paths(x):
         out.append(("top", lambda y: y, "self"))
     if getattr(x, "has_bounds", lambda: False)() and has_ndata(x.bounds):
         out.append(("bounds", lambda y: y.bounds, "bounds"))
+    if getattr(x, "has_interior_ring", lambda: False)() and has_ndata(x.get_interior_ring()):
+        out.append(("ring", lambda y: y.get_interior_ring(), "ring"))
     if isinstance(x, (C.Field, C.Domain)):
-        for k, c in x.constructs.filter_by_data(todict=True).items():
+        for k, c in data_constructs(x):
             if has_ndata(c):
                 out.append(("con", (lambda y, k=k: y.constructs[k]), k))
             if getattr(c, "has_bounds", lambda: False)() and has_ndata(c.bounds):
                 out.append(("conbounds", (lambda y, k=k: y.constructs[k].bounds), k))
+            if getattr(c, "has_interior_ring", lambda: False)() and has_ndata(c.get_interior_ring()):
+                out.append(("conring", (lambda y, k=k: y.constructs[k].get_interior_ring()), k))
     return out
+
+
+def other_element(a, i, rng):
+    """A value for element i of the non-numeric array a that differs from the present one and fits the dtype."""
+    k = a.dtype.kind
+    old = np.ma.getdata(a).flat[i]
+    if k == "b":
+        return not bool(old)
+    if k in "SU":
+        w = a.dtype.itemsize // (4 if k == "U" else 1)
+        cands = ["z" * w, "y" * w, "q"]
+        for c in cands:
+            c = c[:w]
+            v = c if k == "U" else c.encode()
+            if v != old:
+                return v
+        raise Skip
+    if k == "O":
+        return "zzz" if old != "zzz" else None
+    raise Skip
 
 
 def set_array(holder, a):
@@ -745,7 +1062,28 @@ def perturb_array(x, y, path, rng, how):
     if a.size == 0:
         raise Skip
     unmasked = [i for i in range(a.size) if not np.ma.getmaskarray(a).flat[i]]
-    if how in ("datum", "within"):
+    masked = [i for i in range(a.size) if np.ma.getmaskarray(a).flat[i]]
+    if how == "datum" and a.dtype.kind in "bSUO":
+        if not unmasked:
+            raise Skip
+        i = rng.choice(unmasked)
+        a.flat[i] = other_element(a, i, rng)
+    elif how == "hidden":
+        # what lies under the mask is not part of the data: changing it must go unnoticed
+        if not masked:
+            raise Skip
+        i = rng.choice(masked)
+        raw = np.array(np.ma.getdata(a), copy=True)
+        if a.dtype.kind in "bSUO":
+            raw.flat[i] = other_element(a, i, rng)
+        elif a.dtype.kind == "f":
+            raw.flat[i] = rng.choice([float(raw.flat[i]) + 7.5, -123.0, 0.0])
+            if raw.flat[i] == np.ma.getdata(a).flat[i]:
+                raw.flat[i] = 55.0
+        else:
+            raw.flat[i] = (int(raw.flat[i]) + 7) % 100
+        a = np.ma.array(raw, mask=np.ma.getmaskarray(a).copy())
+    elif how in ("datum", "within"):
         if a.dtype.kind not in "iuf" or not unmasked:
             raise Skip
         i = rng.choice(unmasked)
@@ -778,6 +1116,9 @@ def perturb_array(x, y, path, rng, how):
         i = rng.randrange(a.size)
         m.flat[i] = not m.flat[i]
         a = np.ma.array(np.ma.getdata(a), mask=m)
+    elif how == "dtype" and a.dtype.kind in "SU":
+        # the same strings in wider items
+        a = a.astype(a.dtype.kind + str(a.dtype.itemsize // (4 if a.dtype.kind == "U" else 1) + rng.choice([1, 4])))
     elif how == "dtype":
         k = a.dtype.kind
         cands = []
@@ -785,6 +1126,8 @@ def perturb_array(x, y, path, rng, how):
             cands = [">f8" if a.dtype.byteorder in "=<|" and a.dtype.itemsize == 8 else "float64", "float32", "float64"]
         elif k in "iu":
             cands = ["int32", "int64", "float64", "int16"]
+        elif k == "b":
+            cands = ["int8", "uint8", "int32"]
         done = False
         for dt in cands:
             dt = np.dtype(dt)
@@ -820,7 +1163,81 @@ def perturb_array(x, y, path, rng, how):
     return y
 
 
-PERTURB_PROP_NAMES = ["foo", "long_name", "comment", "_FillValue", "missing_value", "Conventions"]
+PERTURB_PROP_NAMES = ["foo", "long_name", "comment", "_FillValue", "missing_value", "Conventions", "units", "calendar"]
+
+
+def perturb_parameter(comp, rng):
+    """Change one parameter of a Datum / CoordinateConversion: another value, a value for an unset (None) term,
+    None for a set term, an extra term (or an extra unset term), a term removed."""
+    ps = comp.parameters()
+    unset = sorted(t for t, v in ps.items() if v is None)
+    r = rng.random()
+    if unset and r < 0.4:
+        comp.set_parameter(rng.choice(unset), 1.0)
+    elif ps and r < 0.7:
+        t = rng.choice(sorted(ps))
+        v = ps[t]
+        if v is not None and rng.random() < 0.3:
+            comp.set_parameter(t, None)
+        elif isinstance(v, str):
+            comp.set_parameter(t, v + "_x")
+        elif v is None:
+            comp.set_parameter(t, 1.0)
+        else:
+            comp.set_parameter(t, far_value(float(v)))
+    elif ps and r < 0.8:
+        comp.del_parameter(rng.choice(sorted(ps)))
+    elif r < 0.9:
+        comp.set_parameter("extra_unset_term", None)
+    else:
+        comp.set_parameter("extra_term", 5.0)
+IDENTITY_PROPS = ("standard_name", "long_name", "cf_role", "axis")
+
+
+def is_nameless(c):
+    """identity() of c cannot come from a property (it falls back to the netCDF variable name, if any)."""
+    return hasattr(c, "has_property") and not any(c.has_property(q) for q in IDENTITY_PROPS) \
+        and getattr(c, "get_measure", lambda d: None)(None) is None
+
+
+def component(y, where, ctx, rng, need=None):
+    """The object at nesting level `where` of y: y itself, its bounds / interior ring, or (for a field or
+    domain) one of its metadata constructs with data, the bounds / interior ring of one.  ctx['target'] names
+    the construct; otherwise constructs whose identity falls back to the netCDF name are preferred."""
+    C = cfdm()
+    if where == "top":
+        return y
+    if where == "bounds":
+        if not getattr(y, "has_bounds", lambda: False)():
+            raise Skip
+        return y.bounds
+    if where == "ring":
+        if not getattr(y, "has_interior_ring", lambda: False)():
+            raise Skip
+        return y.get_interior_ring()
+    if where not in ("con", "conbounds", "conring") or not isinstance(y, (C.Field, C.Domain)):
+        raise Skip
+    cs = y.constructs.filter_by_data(todict=True)
+    cs = {k: c for k, c in cs.items() if not getattr(c, "nc_get_external", lambda: False)()}
+    if where == "conbounds":
+        cs = {k: c for k, c in cs.items() if getattr(c, "has_bounds", lambda: False)()}
+    if where == "conring":
+        cs = {k: c for k, c in cs.items() if getattr(c, "has_interior_ring", lambda: False)()}
+    if need:
+        cs = {k: c for k, c in cs.items() if need(c)}
+    if not cs:
+        raise Skip
+    tgt = ctx.get("target")
+    if tgt is not None:
+        if tgt not in cs:
+            raise Skip
+        k = tgt
+    else:
+        nameless = sorted(k for k, c in cs.items() if is_nameless(c))
+        k = rng.choice(nameless) if nameless and rng.random() < 0.6 else rng.choice(sorted(cs))
+    ctx["hit"] = k
+    c = cs[k]
+    return c if where == "con" else (c.bounds if where == "conbounds" else c.get_interior_ring())
 
 
 def transform(x, kind, rng, ctx):
@@ -844,7 +1261,7 @@ def transform(x, kind, rng, ctx):
         y = x.copy()
         objs = [y]
         if is_fd:
-            objs += list(y.constructs.todict().values())
+            objs += [c for _, c in all_constructs(y)]
         touched = False
         for o in objs:
             if getattr(o, "nc_get_external", lambda: False)():
@@ -862,39 +1279,82 @@ def transform(x, kind, rng, ctx):
             raise Skip
         return y, info
 
-    # ---- properties
-    if kind.startswith("prop"):
-        # prop:<where>: where in top / con / bounds / conbounds
+    if kind.startswith("ncvar:"):
+        # the netCDF variable name of ONE component is set / changed / removed on one side only; constructs
+        # whose identity() falls back to "ncvar%..." are the interesting ones
+        _, how, where = kind.split(":")
+        y = x.copy()
+        tgt = component(y, where, ctx, rng)
+        if not hasattr(tgt, "nc_set_variable") or getattr(tgt, "nc_get_external", lambda: False)():
+            raise Skip
+        old = tgt.nc_get_variable(None)
+        if how == "set":
+            tgt.nc_set_variable("renamed_a" if old != "renamed_a" else "renamed_b")
+        elif old is None:
+            raise Skip
+        else:
+            tgt.nc_del_variable()
+        info.update(where=where, nameless=is_nameless(tgt), tclass=type(tgt).__name__)
+        return y, info
+    if kind.startswith("tag:"):
+        # the class's own type tag: measure (cell measure), cell (domain topology), connectivity (cell connectivity)
         where = kind.split(":")[1]
         y = x.copy()
-        if where == "top":
-            tgt = y
-        elif where == "bounds":
-            if not getattr(y, "has_bounds", lambda: False)():
-                raise Skip
-            tgt = y.bounds
-        elif where in ("con", "conbounds"):
-            if not is_fd:
-                raise Skip
-            cs = y.constructs.filter_by_data(todict=True)
-            if where == "conbounds":
-                cs = {k: c for k, c in cs.items() if getattr(c, "has_bounds", lambda: False)()}
-            if not cs:
-                raise Skip
-            k = rng.choice(sorted(cs))
-            tgt = cs[k] if where == "con" else cs[k].bounds
-            if getattr(cs[k], "nc_get_external", lambda: False)():
-                raise Skip
+        tgt = component(y, where, ctx, rng, need=lambda c: any(hasattr(c, a) for a in ("set_measure", "set_cell", "set_connectivity")))
+        for acc, vals in (("measure", ["area", "volume"]), ("cell", ["face", "edge", "point"]), ("connectivity", ["edge", "node"])):
+            if hasattr(tgt, "set_" + acc):
+                old = getattr(tgt, "get_" + acc)(None)
+                if old is not None and rng.random() < 0.25:
+                    getattr(tgt, "del_" + acc)()
+                else:
+                    getattr(tgt, "set_" + acc)(rng.choice([v for v in vals if v != old]))
+                info.update(where=where, tag=acc, tclass=type(tgt).__name__)
+                return y, info
+        raise Skip
+
+    if kind.split(":")[0] in ("unbound", "unring", "geom"):
+        # bounds removed / interior ring removed / geometry type changed, on the construct itself or on a
+        # construct inside a field or domain
+        how, where = kind.split(":")
+        y = x.copy()
+        need = {"unbound": lambda c: getattr(c, "has_bounds", lambda: False)(),
+                "unring": lambda c: getattr(c, "has_interior_ring", lambda: False)(),
+                "geom": lambda c: hasattr(c, "set_geometry")}[how]
+        tgt = component(y, where, ctx, rng, need=need)
+        if not need(tgt):
+            raise Skip
+        if how == "unbound":
+            tgt.del_bounds()
+        elif how == "unring":
+            tgt.del_interior_ring()
+        elif tgt.get_geometry(None) is not None and rng.random() < 0.3:
+            tgt.del_geometry()
         else:
-            raise fw.HarnessError(kind)
+            tgt.set_geometry("line" if tgt.get_geometry(None) != "line" else "polygon")
+        info.update(where=where, tclass=type(tgt).__name__)
+        return y, info
+
+    # ---- properties
+    if kind.startswith("prop"):
+        # prop:<where>: where in top / bounds / ring / con / conbounds / conring
+        where = kind.split(":")[1]
+        y = x.copy()
+        tgt = component(y, where, ctx, rng)
         if not hasattr(tgt, "set_property"):
             raise Skip
         name = ctx.get("pname") or rng.choice(PERTURB_PROP_NAMES)
 
-        def derived_fill(o):
-            return o.get_property("missing_value", o.get_property("_FillValue", None))
+        def derived(o):
+            # what the Data of the construct - and of its bounds, which inherit from it - take from the
+            # construct's properties (PropertiesData.get_data, PropertiesDataBounds.get_bounds)
+            units, fills = [], []
+            for holder in (o, getattr(o, "get_bounds", lambda d: None)(None), getattr(o, "get_interior_ring", lambda d: None)(None)):
+                d = holder.get_data(None) if holder is not None and hasattr(holder, "get_data") else None
+                units.append(None if d is None else (d.get_units(None), d.get_calendar(None)))
+                fills.append(None if d is None else d.get_fill_value(None))
+            return units, fills
 
-        fill0 = derived_fill(tgt)
+        before = derived(tgt)
         if tgt.has_property(name) and rng.random() < 0.3:
             tgt.del_property(name)
         else:
@@ -905,30 +1365,34 @@ def transform(x, kind, rng, ctx):
             else:
                 new = "zzz" if old != "zzz" else "yyy"
             tgt.set_property(name, new)
-        has_data = getattr(tgt, "has_data", lambda: False)()
-        info.update(where=where, pname=name, fill_changed=bool(has_data and derived_fill(tgt) != fill0))
+        after = derived(tgt)
+        info.update(where=where, pname=name, fill_changed=bool(after[1] != before[1]), units_changed=bool(after[0] != before[0]))
         return y, info
 
     # ---- data arrays
-    if kind.split(":")[0] in ("datum", "within", "mask", "dtype", "shape"):
+    if kind.split(":")[0] in ("datum", "within", "mask", "hidden", "dtype", "shape"):
         how, where = kind.split(":")
         paths = [p for p in data_holder_paths(x) if p[0] == where]
+        if ctx.get("target") is not None and where in ("con", "conbounds", "conring"):
+            paths = [p for p in paths if p[2] == ctx["target"]]
         if not paths:
             raise Skip
-        if how == "shape" and where in ("con", "conbounds"):
+        if how == "shape" and where != "top":
             raise Skip  # would break the container's shape checks, not a single-component change
         if how == "shape" and where == "top" and is_fd:
             raise Skip
         path = rng.choice(paths)
         y = x.copy()
         y = perturb_array(x, y, path, rng, how)
-        info.update(where=where)
-        if how == "within":
-            # which value moved, for the exact tolerance statement of the oracle
-            gx = path[1](x)
-            gy = path[1](y)
-            ax = (gx if isinstance(gx, C.Data) else gx.data).array
-            ay = (gy if isinstance(gy, C.Data) else gy.data).array
+        gx = path[1](x)
+        gy = path[1](y)
+        dx = gx if isinstance(gx, C.Data) else gx.data
+        dy = gy if isinstance(gy, C.Data) else gy.data
+        info.update(where=where, dk=data_kind(dx))
+        if how in ("within", "datum") and dx.dtype.kind in "biuf":
+            # which value moved, for the exact tolerance statement of the oracle (a flipped boolean is a
+            # difference of 1, which an absolute tolerance >= 1 covers)
+            ax, ay = dx.array, dy.array
             diff = [(float(u), float(v)) for u, v, m in zip(np.ma.getdata(ax).ravel(), np.ma.getdata(ay).ravel(), np.ma.getmaskarray(ax).ravel()) if not m and u != v]
             info["moved"] = diff
         return y, info
@@ -947,11 +1411,22 @@ def transform(x, kind, rng, ctx):
         holder = path[1](y)
         d = holder if isinstance(holder, C.Data) else holder.data
         if how == "fill":
-            d.set_fill_value(-7.0 if d.get_fill_value(None) != -7.0 else -8.0)
+            if d.get_fill_value(None) is not None and rng.random() < 0.35:
+                d.del_fill_value()
+            elif d.dtype.kind in "iuf":
+                d.set_fill_value(-7.0 if d.get_fill_value(None) != -7.0 else -8.0)
+            else:
+                raise Skip
         elif how == "units":
-            d.set_units("zz" if d.get_units(None) != "zz" else "yy")
+            if d.get_units(None) is not None and rng.random() < 0.35:
+                d.del_units()
+            else:
+                d.set_units("zz" if d.get_units(None) != "zz" else "yy")
         else:
-            d.set_calendar("noleap" if d.get_calendar(None) != "noleap" else "360_day")
+            if d.get_calendar(None) is not None and rng.random() < 0.35:
+                d.del_calendar()
+            else:
+                d.set_calendar("noleap" if d.get_calendar(None) != "noleap" else "360_day")
         info.update(where=where)
         return y, info
 
@@ -975,8 +1450,12 @@ def transform(x, kind, rng, ctx):
         if not hasattr(x, "set_bounds") or x.has_bounds() or not has_ndata(x):
             raise Skip
         y = x.copy()
-        a = np.asarray(np.ma.getdata(x.array), dtype=float)
-        y.set_bounds(C.Bounds(data=C.Data(np.stack([a - 0.5, a + 0.5], axis=-1))))
+        if x.data.dtype.kind in "iuf":
+            a = np.asarray(np.ma.getdata(x.array), dtype=float)
+            y.set_bounds(C.Bounds(data=C.Data(np.stack([a - 0.5, a + 0.5], axis=-1))))
+        else:
+            a = np.ma.getdata(x.array)
+            y.set_bounds(C.Bounds(data=C.Data(np.stack([a, a], axis=-1))))
         return y, info
     if kind == "geometry":
         if not hasattr(x, "set_geometry"):
@@ -997,7 +1476,7 @@ def transform(x, kind, rng, ctx):
             if not un:
                 raise Skip
             i = rng.choice(un)
-            a.flat[i] = int(far_value(a.flat[i]))
+            a.flat[i] = int(far_value(a.flat[i])) if a.dtype.kind in "iuf" else other_element(a, i, rng)
             set_array(r, a)
         return y, info
     if kind == "measure":
@@ -1037,7 +1516,7 @@ def transform(x, kind, rng, ctx):
         da = y.constructs.data_axes()
         sizes = {k: a.get_size() for k, a in y.domain_axes(todict=True).items()}
         cands = []
-        for k, c in y.constructs.filter_by_data(todict=True).items():
+        for k, c in data_constructs(y):
             axes = da[k]
             if len(axes) == 2 and sizes[axes[0]] == sizes[axes[1]]:
                 cands.append((k, (axes[1], axes[0])))
@@ -1101,7 +1580,11 @@ def transform(x, kind, rng, ctx):
                 m.set_qualifier("where", "ice" if m.get_qualifier("where", None) != "ice" else "sea")
         elif how == "interval":
             iv = m.get_qualifier("interval", None)
-            if iv and rng.random() < 0.6:
+            if iv and len(m.get_axes(())) > 1 and rng.random() < 0.5:
+                # another number of intervals: one for all axes <-> one per axis
+                n_ax = len(m.get_axes(()))
+                m.set_qualifier("interval", [iv[0].copy() for _ in range(1 if len(iv) > 1 else n_ax)])
+            elif iv and rng.random() < 0.6:
                 d = iv[0]
                 new = C.Data(far_value(float(d.array)), units=d.get_units(None))
                 m.set_qualifier("interval", [new] + list(iv[1:]))
@@ -1142,18 +1625,7 @@ def transform(x, kind, rng, ctx):
             y.del_construct(k)
         elif how in ("param", "datum"):
             comp = r.coordinate_conversion if how == "param" else r.datum
-            ps = comp.parameters()
-            if ps and rng.random() < 0.7:
-                t = rng.choice(sorted(ps))
-                v = ps[t]
-                if isinstance(v, str):
-                    comp.set_parameter(t, v + "_x")
-                elif v is None:
-                    comp.set_parameter(t, 1.0)
-                else:
-                    comp.set_parameter(t, far_value(float(v)))
-            else:
-                comp.set_parameter("extra_term", 5.0)
+            perturb_parameter(comp, rng)
         elif how == "coords:remove":
             cs = sorted(r.coordinates())
             if not cs:
@@ -1232,7 +1704,10 @@ def transform(x, kind, rng, ctx):
                 y.set_qualifier("where", "ice" if x.get_qualifier("where", None) != "ice" else "sea")
             elif how == "interval":
                 iv = x.get_qualifier("interval", None)
-                if iv:
+                if iv and rng.random() < 0.4:
+                    # another NUMBER of intervals, the common ones unchanged
+                    y.set_qualifier("interval", list(iv) + [iv[-1].copy()] if len(iv) == 1 or rng.random() < 0.5 else list(iv[:-1]))
+                elif iv:
                     y.set_qualifier("interval", [C.Data(far_value(float(iv[0].array)), units=iv[0].get_units(None))] + list(iv[1:]))
                 else:
                     y.set_qualifier("interval", [C.Data(3.0, units="m")])
@@ -1244,7 +1719,7 @@ def transform(x, kind, rng, ctx):
         elif isinstance(x, C.CoordinateReference):
             if how in ("param", "datum"):
                 comp = y.coordinate_conversion if how == "param" else y.datum
-                comp.set_parameter("extra_term", 5.0)
+                perturb_parameter(comp, rng)
             elif how == "coords:replace":
                 cs = sorted(x.coordinates())
                 if not cs:
@@ -1263,13 +1738,7 @@ def transform(x, kind, rng, ctx):
                 raise Skip
         elif isinstance(x, (C.Datum, C.CoordinateConversion)):
             if how == "param":
-                ps = x.parameters()
-                if ps and rng.random() < 0.6:
-                    t = rng.choice(sorted(ps))
-                    v = ps[t]
-                    y.set_parameter(t, v + "_x" if isinstance(v, str) else (1.0 if v is None else far_value(float(v))))
-                else:
-                    y.set_parameter("extra_term", 5.0)
+                perturb_parameter(y, rng)
             else:
                 raise Skip
         elif isinstance(x, C.DomainAxis):
@@ -1285,6 +1754,10 @@ def transform(x, kind, rng, ctx):
             raise Skip
         return y, info
 
+    if kind == "uncompress":
+        if not hasattr(x, "uncompress") or not (x.data if is_fd else x).get_compression_type():
+            raise Skip
+        return x.uncompress(), info
     if kind == "compress":
         f = ctx["field"]
         if not isinstance(f, C.Field) or not (x is f or (isinstance(x, C.Data) and ctx["sel"] == ("data", None))):
@@ -1306,7 +1779,7 @@ def transform(x, kind, rng, ctx):
         # the uncompressed view must be unchanged (numpy-only check), else this is not a pure change of compression
         if not same_array(f.array, g.array) or any(
                 c.has_data() and not same_array(c.array, g.constructs[k].array)
-                for k, c in f.constructs.filter_by_data(todict=True).items()):
+                for k, c in data_constructs(f)):
             raise Skip
         return (g if x is f else g.data), info
 
@@ -1350,7 +1823,7 @@ def transform(x, kind, rng, ctx):
             others = [select(f, sl) for sl in selectors(f, rng) if sl[0] == "data"]
             others = [d for d in others if d.shape != x.shape]
         else:
-            others = [c for c in f.constructs.todict().values() if type(c) is type(x) and c is not x]
+            others = [c for _, c in all_constructs(f) if type(c) is type(x) and c is not x]
             if getattr(x, "construct_type", None) in ROLE:
                 others = [c for c in others if c.get_property("standard_name", c.get_property("long_name", None)) !=
                           x.get_property("standard_name", x.get_property("long_name", None)) or c.shape != x.shape]
@@ -1383,16 +1856,20 @@ def ignored_at(where, e, x):
 
 def expected(kind, info, e, x, y):
     """The verdict the property demands, by construction of y: 'True', 'False' or 'noraise'."""
-    if kind in ("same", "copy", "subspace", "rename", "reorder", "rename+reorder", "ncnames"):
+    if kind in ("same", "copy", "subspace", "rename", "reorder", "rename+reorder", "ncnames") or kind.startswith(("ncvar:", "hidden:")):
         return "True"
     if kind.startswith("prop"):
         # a construct's data take their fill value from the missing_value/_FillValue property:
         # that derived difference is named by ignore_fill_value only
         if info["fill_changed"] and not e["ifv"]:
             return "False"
+        # likewise the units and calendar of the data are derived from the properties of those names: a
+        # component of the data that no option names
+        if info.get("units_changed"):
+            return "False"
         return "True" if info["pname"] in ignored_at(info["where"], e, x) else "False"
     head = kind.split(":")[0]
-    if head == "within":
+    if head == "within" or (head == "datum" and "moved" in info):
         at, rt = tol_fracs(e)
         ok = all(abs(Fraction(u) - Fraction(v)) <= at + rt * abs(Fraction(v)) for u, v in info["moved"])
         return "True" if ok else "False"
@@ -1400,11 +1877,15 @@ def expected(kind, info, e, x, y):
         return "True" if e["idt"] else "False"
     if head == "fill":
         return "True" if e["ifv"] else "False"
-    if kind == "compress":
+    if kind in ("compress", "uncompress"):
         return "True" if e["ic"] else "False"
     if kind == "retype":
         return "True" if e["it"] else "False"
     if info.get("documented_blind"):
+        return "True"
+    if kind == "sa:qualifier" and e.get("iq") and "where" in e["iq"]:
+        return "True"
+    if kind == "sa:interval" and e.get("iq") and "interval" in e["iq"]:
         return "True"
     if kind.startswith("other:"):
         return "noraise" if e["it"] else "False"
@@ -1418,10 +1899,15 @@ KINDS_ANY = ["same", "copy", "copy", "ncnames", "unrelated", "unrelated", "compr
 KINDS_PD = ["prop:top", "prop:top", "prop:top", "datum:top", "datum:top", "within:top", "within:top", "within:top", "mask:top", "dtype:top", "dtype:top", "shape:top",
             "fill:top", "fill:top", "units:top", "calendar:top", "data:remove",
             "prop:bounds", "datum:bounds", "mask:bounds", "dtype:bounds", "fill:bounds", "units:bounds", "within:bounds",
-            "bounds:remove", "bounds:add", "geometry", "ring:datum", "ring:remove", "measure", "external", "retype", "retype"]
+            "bounds:remove", "bounds:add", "geometry", "ring:datum", "ring:remove", "measure", "external", "retype", "retype",
+            "hidden:top", "hidden:bounds", "hidden:ring", "mask:ring", "datum:ring", "dtype:ring", "prop:ring",
+            "ncvar:set:top", "ncvar:del:top", "ncvar:set:bounds", "ncvar:del:bounds", "tag:top"]
 KINDS_FD = ["subspace", "rename", "rename", "reorder", "reorder", "rename+reorder", "rename+reorder",
             "prop:con", "prop:con", "prop:conbounds", "datum:con", "datum:con", "within:con", "within:con", "within:con", "mask:con", "dtype:con", "fill:con", "units:con",
             "datum:conbounds", "mask:conbounds", "dtype:conbounds", "fill:conbounds",
+            "hidden:con", "hidden:conbounds", "hidden:conring", "mask:conring", "datum:conring", "prop:conring",
+            "ncvar:set:con", "ncvar:set:con", "ncvar:del:con", "ncvar:del:con", "ncvar:set:conbounds", "ncvar:del:conbounds", "tag:con",
+            "unbound:con", "unring:con", "geom:con",
             "axes", "axes", "dataaxes", "cm:method", "cm:qualifier", "cm:interval", "cm:axes", "cm:remove", "cm:add", "cm:order",
             "ref:param", "ref:datum", "ref:coords:remove", "ref:coords:replace", "ref:ancillary", "ref:remove",
             "construct:remove", "construct:remove", "construct:add", "construct:add", "axis:add", "axis:sizeless"]
@@ -1437,7 +1923,7 @@ def kinds_for(x):
     if fam == "pd":
         return KINDS_ANY + KINDS_PD + KINDS_PD
     if fam == "data":
-        return KINDS_ANY + ["datum:top", "within:top", "mask:top", "dtype:top", "shape:top", "fill:top", "units:top", "calendar:top"] * 3
+        return KINDS_ANY + ["datum:top", "within:top", "mask:top", "hidden:top", "dtype:top", "shape:top", "fill:top", "units:top", "calendar:top"] * 3
     return KINDS_ANY + KINDS_SA * 3
 
 
@@ -1447,17 +1933,145 @@ def kinds_for(x):
 _live = {}
 
 
+# The systematic part: perturbation family x data kind x level, each drawn uniformly, on the grid field
+GRID_FAMILIES = ["datum", "datum", "mask", "mask", "hidden", "hidden", "dtype", "within", "shape", "prop", "ncvar:set", "ncvar:del",
+                 "tag", "copy", "fill", "units", "calendar", "unbound", "unring", "geom"]
+GRID_LEVELS = ["data", "con", "con", "bounds", "boundsobj", "ring", "ringobj", "field", "fcon", "fcon", "fbounds", "fring",
+               "dcon", "dbounds", "dring"]
+BOUNDED_ROLES = ["dim", "aux", "geom", "domanc"]
+
+
+def gen_grid(rng):
+    """A payload of the grid family, or None when the drawn combination does not exist."""
+    fam = rng.choice(GRID_FAMILIES)
+    lvl = rng.choice(GRID_LEVELS)
+    dk = rng.choice(DATA_KINDS)
+    if fam in ("fill", "units", "calendar"):
+        lvl = "data"
+    if fam in ("tag", "unbound", "unring", "geom"):
+        lvl = rng.choice(["con", "fcon", "dcon"])
+    if fam == "shape" and lvl not in ("data", "con", "boundsobj", "ringobj"):
+        lvl = rng.choice(["data", "con", "boundsobj", "ringobj"])
+    if lvl in ("bounds", "boundsobj", "fbounds", "dbounds"):
+        role = rng.choice(BOUNDED_ROLES)
+    elif lvl in ("ring", "ringobj", "fring", "dring"):
+        role = "geom"
+    elif lvl == "field":
+        role = "field"
+    elif fam == "tag":
+        role = rng.choice(["measure", "topology", "topology", "connectivity", "connectivity"])
+    elif fam == "unbound":
+        role = rng.choice(BOUNDED_ROLES)
+    elif fam == "unring":
+        role = "geom"
+    elif fam == "geom":
+        role = rng.choice(["geom", "geom", "dim", "aux", "domanc"])
+    else:
+        role = rng.choice(GRID_ROLES)
+    indom = lvl.startswith("d") and lvl != "data"
+    if indom and role == "fanc":
+        role = "aux"
+    base = ["griddom" if indom else "grid", rng.randrange(1 << 30), role, dk]
+    keys = grid_keys(base)
+    key = keys.get(role)
+    where = {"data": "top", "con": "top", "boundsobj": "top", "ringobj": "top", "field": "top", "bounds": "bounds", "ring": "ring",
+             "fcon": "con", "dcon": "con", "fbounds": "conbounds", "dbounds": "conbounds", "fring": "conring", "dring": "conring"}[lvl]
+    sel = {"data": ["data", key], "con": ["con", key], "bounds": ["con", key], "ring": ["con", key], "boundsobj": ["bounds", key],
+           "ringobj": ["ring", key]}.get(lvl, ["self"])
+    if lvl == "data" and rng.random() < 0.3:
+        # the Data of the bounds / of the field instead of the construct's
+        sel = ["data", None] if rng.random() < 0.4 and not indom else sel
+    kind = "copy" if fam == "copy" else fam + ":" + where
+    pname = rng.choice(PERTURB_PROP_NAMES) if fam == "prop" else None
+    target = key if where in ("con", "conbounds", "conring") else None
+    return dict(base=base, sel=sel, kind=kind, pname=pname, target=target, grid=[fam, dk, lvl])
+
+
+def prop_opts(rng, opts, pname):
+    """'Each ignore option removes exactly its own class': for a perturbed property, ignore_properties names
+    it in every accepted form - or names ANOTHER property in every form (then the perturbed one must still
+    count, except the names that are always ignored: Conventions on a field or domain, the fill-value names
+    under ignore_fill_value) - alone and together with ignore_fill_value."""
+    r = rng.random()
+    if r < 0.35:
+        opts["ip"] = rng.choice([["s", pname], ["s", pname], ["t", [pname]], ["l", [pname]], ["t", ["zzz", pname]]])
+        opts["ifv"] = rng.random() < 0.5
+    elif r < 0.6:
+        other = rng.choice([n for n in ("zzz", "long_name", "comment", "foo") if n != pname])
+        opts["ip"] = rng.choice([["s", other], ["t", [other]], ["l", [other]], ["t", ["zzz", other]], ["l", [other, "units"]]])
+        opts["ifv"] = rng.random() < 0.5
+
+
+def _mk(p, leaf=False):
+    """mk_case, with anything unexpected turned into a harness error (exit 2, never a bare traceback)."""
+    try:
+        return c05leaf.mk_case(p) if leaf else mk_case(p)
+    except fw.HarnessError:
+        raise
+    except Exception as ex:
+        import traceback
+        raise fw.HarnessError("building a case raised %r for payload %s\n%s" % (ex, json.dumps(p, default=str)[:600], traceback.format_exc()[-1200:]))
+
+
 def gen(rng, tier, n):
     C = cfdm()
     made = 0
     attempts = 0
     while made < n and attempts < 20 * n + 100:
         attempts += 1
+        r0 = rng.random()
+        if r0 < 0.18:
+            c = _mk(c05leaf.gen_payload(rng), leaf=True)
+            made += 1
+            yield c
+            continue
+        if r0 < 0.45:
+            p = gen_grid(rng)
+            if p["grid"][0] == "tag" and p["base"][2] != "measure" and rng.random() < 0.85:
+                continue  # ends in the open finding on the cell / connectivity type: kept, thinned
+            kind, pname = p["kind"], p["pname"]
+            opts = gen_opts(rng, pname)
+            if kind.startswith("prop") and pname:
+                prop_opts(rng, opts, pname)
+            if kind.startswith("within") and rng.random() < 0.5:
+                opts["rtol"] = rng.choice([0.0, 0.0, 2.0 ** -10])
+                opts["atol"] = rng.choice([0.0, 0.0, 0.5])
+            p.update(opts=opts, tseed=rng.randrange(1 << 30), swap=rng.random() < 0.3)
+            c = _mk(p)
+            if c is None:
+                continue
+            made += 1
+            yield c
+            continue
+        if r0 < 0.50:
+            # classes that are nothing but properties (and data); compressed fields
+            if rng.random() < 0.6:
+                base, sel = ["ex", 0], ["misc", rng.choice(MISC_CLASSES), rng.randrange(1 << 30)]
+                kind = rng.choice(["same", "copy", "copy", "prop:top", "prop:top", "prop:top", "datum:top", "mask:top", "hidden:top", "dtype:top",
+                                   "shape:top", "data:remove", "ncvar:set:top", "ncvar:del:top", "other:bounds", "other:int", "unrelated"])
+                if kind.split(":")[0] in ("datum", "mask", "hidden", "dtype", "shape", "data") and sel[1].endswith("Properties"):
+                    kind = "prop:top"
+            else:
+                base = ["excomp", rng.choice([3, 3, 4]), rng.choice(["contiguous", "indexed", "indexed_contiguous"])]
+                sel = ["self"] if rng.random() < 0.7 else ["data", None]
+                kind = rng.choice(["same", "copy", "copy", "copy", "uncompress", "uncompress", "uncompress", "datum:top", "mask:top", "ncnames"]
+                                  + (["prop:top", "prop:con", "cm:method", "rename"] if sel == ["self"] else []))
+            pname = rng.choice(PERTURB_PROP_NAMES) if kind.startswith("prop") else None
+            opts = gen_opts(rng, pname)
+            if base[0] == "excomp" and rng.random() < 0.6:
+                opts["ic"] = False
+            p = dict(base=base, sel=sel, kind=kind, pname=pname, opts=opts, tseed=rng.randrange(1 << 30), swap=rng.random() < 0.3)
+            c = _mk(p)
+            if c is None:
+                continue
+            made += 1
+            yield c
+            continue
         r = rng.random()
         if r < 0.35:
-            base = ["ex", rng.choice([0, 1, 1, 1, 2, 3, 4, 6, 6, 7, 7] + ([5] if tier == "thorough" else []))]
+            base = ["ex", rng.choice([0, 1, 1, 1, 2, 3, 4, 6, 6, 7, 7, 8, 8, 9, 10, 11] + ([5] if tier == "thorough" else []))]
         elif r < 0.42:
-            base = ["exdom", rng.choice([0, 1, 1, 3, 6, 7])]
+            base = ["exdom", rng.choice([0, 1, 1, 3, 6, 7, 8, 10])]
         elif r < 0.9:
             base = ["rand", rng.randrange(1 << 30)]
         else:
@@ -1469,20 +2083,25 @@ def gen(rng, tier, n):
         sels = selectors(f, rng)
         sel = ["self"] if (bare or rng.random() < 0.5) else list(rng.choice(sels))
         x = select(f, sel)
-        kind = rng.choice(["axes", "axes", "axes", "dataaxes", "rename+reorder", "copy"]) if bare else rng.choice(kinds_for(x))
+        kind = rng.choice(["axes", "axes", "axes", "axes", "axes", "dataaxes", "rename+reorder", "rename+reorder", "copy"]) if bare else rng.choice(kinds_for(x))
+        # kinds that mostly end in one open finding are kept, but thinned (DESIGN §8: a large share of
+        # known-finding cases dilutes the check)
+        if kind in ("dataaxes", "axis:sizeless") and rng.random() < 0.75:
+            continue
         pname = rng.choice(PERTURB_PROP_NAMES) if kind.startswith("prop") else None
+        if kind == "prop:top" and isinstance(x, (C.Field, C.Domain)) and rng.random() < 0.2:
+            pname = "Conventions"
         opts = gen_opts(rng, pname)
-        if kind.startswith("prop") and pname and rng.random() < 0.35:
-            # "each ignore option removes exactly its own class": name the touched property in every
-            # accepted form of ignore_properties, alone and together with ignore_fill_value
-            opts["ip"] = rng.choice([["s", pname], ["s", pname], ["t", [pname]], ["l", [pname]], ["t", ["zzz", pname]]])
-            opts["ifv"] = rng.random() < 0.5
+        if kind.startswith("other:") and opts["it"] and rng.random() < 0.8:
+            opts["it"] = False
+        if kind.startswith("prop") and pname:
+            prop_opts(rng, opts, pname)
         if kind.startswith("within") and rng.random() < 0.5:
             # explicit tolerances, zero included, are what "within tolerance" is about
             opts["rtol"] = rng.choice([0.0, 0.0, 2.0 ** -10])
             opts["atol"] = rng.choice([0.0, 0.0, 0.5])
         p = dict(base=base, sel=sel, kind=kind, pname=pname, opts=opts, tseed=rng.randrange(1 << 30), swap=rng.random() < 0.3)
-        c = mk_case(p)
+        c = _mk(p)
         if c is None:
             continue
         made += 1
@@ -1493,7 +2112,10 @@ def build_pair(p):
     f = base_field(p["base"])
     x = select(f, tuple(p["sel"]))
     trng = fw.rng_for(p["tseed"], "C05t")
-    y, info = transform(x, p["kind"], trng, dict(field=f, pname=p.get("pname"), base=p["base"], sel=tuple(p["sel"])))
+    ctx = dict(field=f, pname=p.get("pname"), base=p["base"], sel=tuple(p["sel"]), target=p.get("target"))
+    y, info = transform(x, p["kind"], trng, ctx)
+    if ctx.get("hit") is not None:
+        info.setdefault("hit", ctx["hit"])
     return x, y, info
 
 
@@ -1502,13 +2124,19 @@ def mk_case(p):
         x, y, info = build_pair(p)
     except Skip:
         return None
+    except fw.HarnessError:
+        raise
+    except Exception as ex:
+        import traceback
+        raise fw.HarnessError("building a case raised %r for payload %s\n%s" % (ex, json.dumps(p, default=str)[:600], traceback.format_exc()[-1200:]))
     kind = p["kind"]
     swap = bool(p.get("swap")) and hasattr(y, "equals") and kind != "same"
     a, b = (y, x) if swap else (x, y)
     e = effective(a, p["opts"])
-    # 'within' tolerance statements are directional: keep x on the left
-    if swap and kind.startswith("within"):
-        return None
+    # tolerance statements are directional (|x - y| <= atol + rtol*|y|): with the operands swapped the
+    # moved pairs are read the other way round
+    if swap and "moved" in info:
+        info = dict(info, moved=[(v, u) for u, v in info["moved"]])
     exp = expected(kind, info, effective(x, p["opts"]) if not swap else e, x, y)
     if swap and kind == "retype":
         # converting x's class to y's class must also preserve the content
@@ -1522,11 +2150,25 @@ def mk_case(p):
         k = scale_of(ab.fracs)
         ot = opts_tree(ab, e, k)
         line = f"C05.eq o={render(ot, k)} x={render(tx, k)} y={render(ty, k)} same={1 if kind == 'same' else 0}"
+        if e.get("iq") is not None:
+            iq = [n for n in e["iq"] if n != "interval"]
+            line += " iq=" + render((int("interval" in e["iq"]), tuple(ab.name(n) for n in iq)), k)
     except Unrepresentable:
         line = None
     tags = ["kind:" + kind, "x:" + type(a).__name__, "expect:" + exp]
     if swap:
         tags.append("swapped")
+    if info.get("dk"):
+        tags.append("dk:" + info["dk"])
+        tags.append("cell:%s/%s/%s" % (kind.split(":")[0], info["dk"], info.get("where")))
+    if info.get("nameless"):
+        tags.append("nameless-target")
+    if info.get("tclass"):
+        tags.append("target:" + info["tclass"])
+    if p.get("grid"):
+        tags.append("grid")
+        tags.append("grid-level:" + p["grid"][2])
+        tags.append("grid-role:" + p["base"][2])
     for name, key in (("idt", "idt"), ("ifv", "ifv"), ("it", "it")):
         if e[key]:
             tags.append("opt:" + name)
@@ -1538,6 +2180,8 @@ def mk_case(p):
         tags.append("opt:tol")
     if p["opts"]["verbose"] is not None:
         tags.append("opt:verbose")
+    if e.get("iq") is not None:
+        tags.append("opt:iq")
     if line is None:
         tags.append("oracle-only")
     key = repr((p["base"], p["sel"], kind, p.get("pname"), sorted(p["opts"].items(), key=str), p["tseed"], swap))
@@ -1546,7 +2190,24 @@ def mk_case(p):
     return c
 
 
+def extra_coverage(run):
+    """How the systematic part of the generator covered (perturbation family x data kind x level)."""
+    cells = {k[5:]: v for k, v in run.dist.items() if k.startswith("cell:")}
+    fams = sorted({c.split("/")[0] for c in cells})
+    kinds = sorted({c.split("/")[1] for c in cells})
+    levels = sorted({c.split("/")[2] for c in cells})
+    return dict(
+        grid_cells_hit=len(cells),
+        grid_axes=dict(families=fams, data_kinds=kinds, levels=levels),
+        grid_family_by_kind={f: {k: sum(v for c, v in cells.items() if c.startswith(f + "/" + k + "/")) for k in kinds} for f in fams},
+        cases_ending_in_an_oracle_failure=len(run.failures),
+        share_of_cases_ending_in_an_oracle_failure=round(len(run.failures) / max(1, run.evaluations), 4),
+    )
+
+
 def from_payload(stream, payload):
+    if stream == "C05.leaf":
+        return c05leaf.mk_case(payload)
     c = mk_case(payload)
     if c is None:
         raise fw.HarnessError("payload does not build a case")
@@ -1565,6 +2226,8 @@ def show(r):
 
 
 def impl(c):
+    if c.stream == "C05.leaf":
+        return c05leaf.impl(c)
     live = _live.pop(id(c), None)
     if live is None:
         cc = mk_case(c.payload)
@@ -1587,6 +2250,8 @@ def agree(c):
 
 
 def oracle(c):
+    if c.stream == "C05.leaf":
+        return c05leaf.oracle(c)
     exp = c.extra
     if exp is None:
         return "expected verdict missing"
@@ -1670,6 +2335,8 @@ def _domain_isomorphic(x, y):
 def classify(c):
     """Signature of a known defect, or a coarse label that merely groups unlisted failures
     (such a label is in no known_findings entry, so it is still reported as a VIOLATION)."""
+    if c.stream == "C05.leaf":
+        return c05leaf.classify(c)
     sig = _classify(c)
     if sig:
         return sig
@@ -1696,6 +2363,8 @@ def _classify(c):
         x, y, info = build_pair(p)
     except Exception:
         return None
+    if kind.startswith("tag:") and out == "True" and info.get("tclass") in ("DomainTopology", "CellConnectivity"):
+        return "domain-topology-cell-or-connectivity-type-not-compared"
     if not isinstance(x, (C.Field, C.Domain)):
         return None
     sx = _structure(x)
